@@ -75,6 +75,14 @@ claim("C15", "who-may-write / dataflow / dominance rules over cmd/gxz; finite-do
       "dictionary size passes .lzma sniffing; each file's failure reaches the exit status. Not decided: contents round trip, presets, interoperability, option parsing in gflag.",
       TRUST, "DESIGN.md §4 C15")
 
+claim("C14", "escape / read-only-use analysis of every package-level variable; lockset walk for the logger; effect scan of the reader/writer call-graph cones",
+      "Decides for ALL ~30 package-level variables of the four library packages that none is assigned after initialisation, none has its address escape, and reference "
+      "contents are only read on every use chain (never stored into instance state, returned, appended to, or passed to a writing parameter); the logger's state is only "
+      "touched under its mutex; no goroutine/channel/map-iteration/time/rand/env/runtime/sync.Pool/unsafe in the reader/writer cones. Hence distinct instances share no "
+      "mutable memory and output depends on configuration and input only. Schedules cannot be enumerated by tests; the variables and their uses can. "
+      "Not decided: races inside user-supplied io.Reader/io.Writer implementations; the Go runtime.",
+      TRUST + "Read-only stdlib parameter table (gl.go readOnlyStdCall).", "DESIGN.md §4 C14, §3.6")
+
 NOT_YET = "not yet decided: rules under construction (DESIGN.md §10); no claim is made"
 
 def main():
